@@ -3,3 +3,5 @@ pub mod layout;
 pub mod model;
 pub mod scratchpad;
 pub mod crash;
+pub mod conc;
+pub mod conc2;
